@@ -96,7 +96,8 @@ type Inv struct {
 	keys    map[string]int
 	// reach is the set of functions on the trees being inventoried (call sites outside it - genesis import, tests -
 	// are not this inventory's concern when a fact is established "at every call site")
-	reach map[*ssa.Function]*ssa.Function
+	reach     map[*ssa.Function]*ssa.Function
+	liftDepth int
 }
 
 // treeCallers: the static call sites of fn that lie on the inventoried trees.
@@ -873,6 +874,9 @@ func shortCallee(s string) string {
 
 func (iv *Inv) discharge(s invSite, reach map[*ssa.Function]*ssa.Function) {
 	iv.reach = reach
+	// operands handed to a helper are followed to the helper's call sites on the inventoried trees
+	iv.tr.Lift = 2
+	iv.tr.LiftFilter = func(f *ssa.Function) bool { _, ok := reach[f]; return ok }
 	key := iv.key(s)
 	pos := iv.w.Pos(s.instr.Pos())
 	if !s.instr.Pos().IsValid() {
@@ -1302,6 +1306,33 @@ func (iv *Inv) validatedByDenomCall(fn *ssa.Function, at ssa.Instruction, d ssa.
 					}
 				}
 			}
+		}
+	}
+	// the value (or the slice it is an element of) was handed in as a parameter: established at every call site on the
+	// inventoried trees
+	if prm, ok := cont.(*ssa.Parameter); ok && prm.Parent() == fn && iv.liftDepth < 2 {
+		idx := -1
+		for i, q := range fn.Params {
+			if q == prm {
+				idx = i
+			}
+		}
+		callers := iv.treeCallers(fn)
+		if idx >= 0 && len(callers) > 0 {
+			var hows []string
+			for _, cs := range callers {
+				if cs.Common().IsInvoke() || idx >= len(cs.Common().Args) {
+					return false, ""
+				}
+				iv.liftDepth++
+				ok, how := iv.validatedByDenomCall(cs.Caller, cs.Instr, cs.Common().Args[idx])
+				iv.liftDepth--
+				if !ok {
+					return false, ""
+				}
+				hows = append(hows, how+" before the call in "+funcName(cs.Caller))
+			}
+			return true, strings.Join(hows, "; ")
 		}
 	}
 	return false, ""
